@@ -110,6 +110,8 @@ inductive Op where
   | print (lines : List Line)
   /-- `with console.capture(): print(l1); print(l2); …` -/
   | capture (bodies : List (List Line))
+  /-- `with console.capture(): print(a); with console.capture(): print(b); print(c)` — the inner block starts with a non-empty buffer -/
+  | nested (a b c : List Line)
   /-- `Live.update(renderable, refresh=…)` -/
   | update (f : Frame) (refresh : Bool)
   | refresh
@@ -211,6 +213,10 @@ def ctlCode (ops : List TermOp) (control : Bool) : List GAct := ga (.pushCtl ops
 def captureCode (k : DKind) (bodies : List (List Line)) : List GAct :=
   [ga .capBegin] ++ bodies.flatMap (fun ls => printBody k (.pushUser ls)) ++ [ga .capEnd, ga .exitDec] ++ flushCode
 
+def nestedCode (k : DKind) (a b c : List Line) : List GAct :=
+  [ga .capBegin] ++ printBody k (.pushUser a) ++ [ga .capBegin] ++ printBody k (.pushUser b) ++ [ga .capEnd, ga .exitDec] ++ flushCode
+    ++ printBody k (.pushUser c) ++ [ga .capEnd, ga .exitDec] ++ flushCode
+
 def startCode (cfg : Cfg) : List GAct :=
   match cfg.kind with
   | .live => [ga (.acq .live), ga (.guardStarted false)] ++ ctlCode [.hideCursor] true ++ [ga .pushHook, ga (.setStarted true), ga (.rel .live)]
@@ -232,6 +238,7 @@ def stopCode (cfg : Cfg) : List GAct :=
 def code (cfg : Cfg) : Op → List GAct
   | .print ls => printBody cfg.kind (.pushUser ls)
   | .capture bodies => captureCode cfg.kind bodies
+  | .nested a b c => nestedCode cfg.kind a b c
   | .update f r =>
     match cfg.kind with
     | .live => [ga (.acq .live), ga (.setRenderable f)] ++ (if r then refreshCode .live else []) ++ [ga (.rel .live)]
@@ -245,7 +252,7 @@ def code (cfg : Cfg) : Op → List GAct
     | _ => []
 
 def Op.applies (k : DKind) : Op → Bool
-  | .print _ | .capture _ => true
+  | .print _ | .capture _ | .nested _ _ _ => true
   | .update _ _ => k == .live
   | .refresh | .start | .stop => k != .none
   | .advance _ _ => k == .progress
